@@ -21,10 +21,30 @@ def _atom(t):
 
 
 class Conv:
-    def __init__(self):
+    def __init__(self, obl=None):
         import sympy
         self.sp = sympy
         self.syms = {}
+        self.obl = obl
+        self.ite_checks = 0
+
+    def decide(self, cond):
+        """truth value of an ite condition under the obligation's hypotheses (quick z3 query), else None"""
+        o = self.obl
+        if o is None:
+            return None
+        self.ite_checks += 1
+        for val, f in ((True, z3.Not(cond)), (False, cond)):
+            s = z3.Solver()
+            s.set("timeout", 3000)
+            for a in o.axioms:
+                s.add(a)
+            for h in o.hyps:
+                s.add(h)
+            s.add(f)
+            if s.check() == z3.unsat:
+                return val
+        return None
 
     def sym(self, t):
         key = t.sexpr()
@@ -43,7 +63,7 @@ class Conv:
         if not z3.is_app(t):
             raise ValueError(f"ratfun: unsupported term {t}")
         k = t.decl().kind()
-        ch = [self.conv(c) for c in t.children()] if k not in (z3.Z3_OP_SELECT,) else None
+        ch = [self.conv(c) for c in t.children()] if k not in (z3.Z3_OP_SELECT, z3.Z3_OP_ITE) else None
         if k == z3.Z3_OP_ADD:
             return sp.Add(*ch)
         if k == z3.Z3_OP_MUL:
@@ -61,6 +81,11 @@ class Conv:
             return ch[0] ** ch[1]
         if k == z3.Z3_OP_TO_REAL:
             return ch[0]
+        if k == z3.Z3_OP_ITE:
+            d = self.decide(t.arg(0))
+            if d is None:
+                raise ValueError(f"ratfun: undecided ite condition {str(t.arg(0))[:80]}")
+            return self.conv(t.arg(1) if d else t.arg(2))
         raise ValueError(f"ratfun: unsupported operator {t.decl().name()} in {str(t)[:80]}")
 
 
@@ -73,24 +98,37 @@ def prove(o):
     goal = o.goal
     if not (z3.is_app(goal) and goal.decl().kind() == z3.Z3_OP_EQ):
         return False, "ratfun: goal is not an equality"
-    cv = Conv()
+    # an infeasible path (contradictory branch conditions) discharges anything
+    tags0 = getattr(o, "hyp_tags", [None] * len(o.hyps))
+    s0 = z3.Solver()
+    s0.set("timeout", 3000)
+    for h, tg in zip(o.hyps, tags0):
+        if tg and any(tt.startswith(("path", "range")) for tt in tg.split(";")):
+            s0.add(h)
+    if s0.check() == z3.unsat:
+        return True, "ratfun: infeasible path (branch conditions contradictory)"
+    cv = Conv(o)
     sp = cv.sp
+    extra_tags = tuple((o.by or {}).get("rules", ()))
     try:
         lhs, rhs = [_simp(x) for x in goal.children()]
         expr = cv.conv(lhs) - cv.conv(rhs)
         rules = []
         tags = getattr(o, "hyp_tags", [None] * len(o.hyps))
         for h, tag in zip(o.hyps, tags):
-            if tag is None or not any(tt.split(":")[0] in RULE_TAGS for tt in tag.split(";")):
+            if tag is None or not any(tt.split(":")[0] in RULE_TAGS or any(tt.startswith(x) for x in extra_tags) for tt in tag.split(";")):
                 continue
             for eq in _equalities(h):
                 a, b = [_simp(x) for x in eq.children()]
-                if not (a.sort() == z3.RealSort()):
+                if a.sort().kind() not in (z3.Z3_REAL_SORT, z3.Z3_INT_SORT):
                     continue
-                if _atom(a):
-                    rules.append((cv.sym(a), cv.conv(b), tag))
-                elif _atom(b):
-                    rules.append((cv.sym(b), cv.conv(a), tag))
+                try:
+                    if _atom(a):
+                        rules.append((cv.sym(a), cv.conv(b), tag))
+                    elif _atom(b):
+                        rules.append((cv.sym(b), cv.conv(a), tag))
+                except ValueError:
+                    continue   # not a usable rewrite rule (ite / unsupported operator): ignored
         for _ in range(6):
             before = expr
             for s, r, _tag in rules:
